@@ -189,10 +189,10 @@ theorem parseInstrText_itext (tok opN : Str) (op : Op) (mdo : Option Modifier) (
 abbrev PI := Op × Option Modifier × Mode × Int × Mode × Int
 
 theorem go_instr_plain (l : Str) (rest : List Str) (f0 f1 f2 : Str) (fr : List Str)
-    (x : PI) (code : List PI) (start label : Option Nat)
+    (x : PI) (code : List PI) (start label : Option Nat) (ref : Bool)
     (hf : fields l = f0 :: f1 :: f2 :: fr) (hh : toLower f0 ≠ "start".toList)
     (hp : Spec.parseInstrText l = some x) :
-    Spec.readText.go (l :: rest) code start label = Spec.readText.go rest (x :: code) start label := by
+    Spec.readText.go (l :: rest) code start label ref = Spec.readText.go rest (x :: code) start label ref := by
   have hb : (Option.map toLower (f0 :: f1 :: f2 :: fr).head? == some "start".toList) = false := by
     simp only [List.head?_cons, Option.map_some, Option.some_beq_some, beq_eq_false_iff_ne]
     exact hh
@@ -200,20 +200,20 @@ theorem go_instr_plain (l : Str) (rest : List Str) (f0 f1 f2 : Str) (fr : List S
   simp only [hf, hb, Bool.false_eq_true, if_false, hp]
 
 theorem go_instr_start (l : Str) (rest : List Str) (f0 f1 f2 : Str) (fr : List Str)
-    (x : PI) (code : List PI) (start label : Option Nat)
+    (x : PI) (code : List PI) (start label : Option Nat) (ref : Bool)
     (hf : fields l = f0 :: f1 :: f2 :: fr) (hh : toLower f0 = "start".toList)
     (hp : Spec.parseInstrText ((trimLeft l).drop 5) = some x) :
-    Spec.readText.go (l :: rest) code start label =
-      Spec.readText.go rest (x :: code) start (some code.length) := by
+    Spec.readText.go (l :: rest) code start label ref =
+      Spec.readText.go rest (x :: code) start (some code.length) ref := by
   have hb : (Option.map toLower (f0 :: f1 :: f2 :: fr).head? == some "start".toList) = true := by
     simp only [List.head?_cons, Option.map_some, Option.some_beq_some, beq_iff_eq]
     exact hh
   rw [Spec.readText.go]
   simp only [hf, hb, if_true, hp]
 
-theorem go_org_start (rest : List Str) (code : List PI) (start label : Option Nat) :
-    Spec.readText.go ("ORG      START".toList :: rest) code start label =
-      Spec.readText.go rest code start label := by
+theorem go_org_start (rest : List Str) (code : List PI) (start label : Option Nat) (ref : Bool) :
+    Spec.readText.go ("ORG      START".toList :: rest) code start label ref =
+      Spec.readText.go rest code start label true := by
   have hf : fields "ORG      START".toList = ["ORG".toList, "START".toList] := by decide
   have h1 : (toLower "ORG".toList == "org".toList) = true := by decide
   have h2 : (toLower "START".toList == "start".toList) = true := by decide
@@ -221,8 +221,8 @@ theorem go_org_start (rest : List Str) (code : List PI) (start label : Option Na
   rw [Spec.readText.go]
   simp only [hf, h1, h2, h3, Bool.true_or, if_true, Bool.false_eq_true, if_false]
 
-theorem go_end_start (rest : List Str) (code : List PI) (start label : Option Nat) :
-    Spec.readText.go ("END      START".toList :: rest) code start label =
+theorem go_end_start (rest : List Str) (code : List PI) (start label : Option Nat) (ref : Bool) :
+    Spec.readText.go ("END      START".toList :: rest) code start label ref =
       some { code := code.reverse, start := (label.orElse (fun _ => start)).getD 0 } := by
   have hf : fields "END      START".toList = ["END".toList, "START".toList] := by decide
   have h1 : (toLower "END".toList == "end".toList) = true := by decide
@@ -230,9 +230,10 @@ theorem go_end_start (rest : List Str) (code : List PI) (start label : Option Na
   rw [Spec.readText.go]
   simp only [hf, h1, h2, Bool.or_true, if_true]
 
-theorem go_nil (code : List PI) (start label : Option Nat) :
-    Spec.readText.go [] code start label =
-      some { code := code.reverse, start := (start.orElse (fun _ => label)).getD 0 } := by
+theorem go_nil (code : List PI) (start label : Option Nat) (ref : Bool) :
+    Spec.readText.go [] code start label ref =
+      some { code := code.reverse,
+             start := if ref then (label.orElse (fun _ => start)).getD 0 else start.getD 0 } := by
   rw [Spec.readText.go]
 
 /-! ## the printed line -/
@@ -488,16 +489,16 @@ theorem ltok_not_start (legacy : Bool) (i : Instr) : toLower (ltok legacy i) ≠
 
 /-- one step of the reference reader over a printed line -/
 theorem go_tline (m : UInt64) (legacy isStart : Bool) (i : Instr) (rest : List Str)
-    (code : List PI) (start label : Option Nat) :
-    Spec.readText.go (tline m legacy isStart i :: rest) code start label =
+    (code : List PI) (start label : Option Nat) (ref : Bool) :
+    Spec.readText.go (tline m legacy isStart i :: rest) code start label ref =
       Spec.readText.go rest (parsedOf m legacy i :: code) start
-        (if isStart then some code.length else label) := by
+        (if isStart then some code.length else label) ref := by
   cases isStart
   · simp only [tline, Bool.false_eq_true, if_false]
-    exact go_instr_plain _ _ _ _ _ _ _ _ _ _ (fields_ltext m legacy i) (ltok_not_start legacy i)
+    exact go_instr_plain _ _ _ _ _ _ _ _ _ _ _ (fields_ltext m legacy i) (ltok_not_start legacy i)
       (parse_ltext m legacy i)
   · simp only [tline, if_true]
-    refine go_instr_start _ _ _ _ _ _ _ _ _ _ (fields_start_ltext m legacy i) (by decide) ?_
+    refine go_instr_start _ _ _ _ _ _ _ _ _ _ _ (fields_start_ltext m legacy i) (by decide) ?_
     have : trimLeft ("START".toList ++ ("  ".toList ++ ltext m legacy i)) =
         "START".toList ++ ("  ".toList ++ ltext m legacy i) := trimLeft_cons (by decide) _
     rw [this]
@@ -506,11 +507,11 @@ theorem go_tline (m : UInt64) (legacy isStart : Bool) (i : Instr) (rest : List S
 /-! ## the loop over all printed lines -/
 
 theorem go_tlines (m : UInt64) (legacy : Bool) (s : Nat) (c : List Instr) (k : Nat) (rest : List Str)
-    (code : List PI) (start label : Option Nat) (hk : code.length = k) :
+    (code : List PI) (start label : Option Nat) (ref : Bool) (hk : code.length = k) :
     Spec.readText.go ((c.zipIdx k).map (fun p => tline m legacy (decide (p.2 = s)) p.1) ++ rest)
-        code start label =
+        code start label ref =
       Spec.readText.go rest ((c.map (parsedOf m legacy)).reverse ++ code) start
-        (if k ≤ s ∧ s < k + c.length then some s else label) := by
+        (if k ≤ s ∧ s < k + c.length then some s else label) ref := by
   induction c generalizing k code label with
   | nil =>
     have : ¬ (k ≤ s ∧ s < k) := by omega
@@ -628,14 +629,14 @@ theorem readText_loadCode (m : UInt64) (legacy : Bool) (w : WarriorData)
   · simp only [Bool.false_eq_true, if_false, List.append_nil, List.singleton_append, List.map_cons, t1,
       trim_bodies, List.filter_cons, f1, if_true, filter_tlines]
     rw [go_org_start]
-    have := hgo [] [] none none rfl
+    have := hgo [] [] none none true rfl
     simp only [List.append_nil] at this
     unfold tlines
     rw [this, go_nil]
     simp [hlen2]
   · simp only [if_true, List.nil_append, List.map_append, List.map_cons, List.map_nil, t2,
       trim_bodies, List.filter_append, List.filter_cons, f2, List.filter_nil, filter_tlines]
-    have := hgo ["END      START".toList] [] none none rfl
+    have := hgo ["END      START".toList] [] none none false rfl
     unfold tlines
     rw [this, go_end_start]
     simp [hlen2]
